@@ -1,7 +1,7 @@
 //! C03 - honest Stone proofs verify only under the matching build, with right hashes.
 //! Finite space: (25 shipped proofs + fixture) x this build x 7 layouts, enumerated completely.
 use crate::kit::{build_hash, build_name, build_stone6, fhex, report::Report, Ctx, HashKind};
-use crate::props::common::{clone_proof, fixture_proof, own_security, verify_full};
+use crate::props::common::{fixture_proof, own_security, verify_full};
 use crate::refm::{pubin::{expected_hashes, Hashes}, stonefile::{self, LAYOUTS}};
 use rayon::prelude::*;
 use serde_json::{json, Value};
@@ -67,13 +67,19 @@ fn one(it: &Item, layout: &str) -> (bool, crate::kit::panics::Verdict, Vec<Strin
             Hashes::Malformed(why) => bad.push(format!("accepted although the main page is malformed: {}", why)),
         }
         // serialise / deserialise round trip
-        let rt = clone_proof(&it.proof);
-        if rt != it.proof {
-            bad.push("serde round trip changes the proof value".to_string());
-        }
-        let (v2, pair2) = verify_full(&rt, layout, own_security(&rt));
-        if v2 != v || pair2 != pair {
-            bad.push("verdict changes after a serde round trip".to_string());
+        // serialise -> text -> deserialise, without assuming that it succeeds
+        let rt: Result<StarkProof, String> = serde_json::to_string(&it.proof).map_err(|e| e.to_string()).and_then(|t| serde_json::from_str::<StarkProof>(&t).map_err(|e| e.to_string()));
+        match rt {
+            Err(e) => bad.push(format!("serde round trip fails: the serialised proof does not load again ({})", e.chars().take(80).collect::<String>())),
+            Ok(rt) => {
+                if rt != it.proof {
+                    bad.push("serde round trip changes the proof value".to_string());
+                }
+                let (v2, pair2) = verify_full(&rt, layout, own_security(&rt));
+                if v2 != v || pair2 != pair {
+                    bad.push("verdict changes after a serde round trip".to_string());
+                }
+            }
         }
     }
     (expect, v, bad)
